@@ -1,5 +1,7 @@
 package event
 
+import "sync"
+
 type EventFn[T any] func(data T)
 
 type Unsubscribe func()
@@ -8,6 +10,10 @@ type subscription[T any] struct {
 	id uint64
 	fn EventFn[T]
 }
+
+// Guards the subscriber lists of all events. It is package-level rather than a field so that
+// an Event (and the config properties embedding one) stays a plain copyable value.
+var subscribersMu sync.RWMutex
 
 type Event[T any] struct {
 	subscribers []subscription[T]
@@ -22,10 +28,16 @@ func New[T any]() *Event[T] {
 // The returned function removes exactly this subscriber, no matter which other
 // subscribers were added or removed in the meantime. Calling it again is a no-op.
 func (e *Event[T]) Subscribe(fn EventFn[T]) Unsubscribe {
+	subscribersMu.Lock()
+	defer subscribersMu.Unlock()
+
 	e.nextID++
 	id := e.nextID
 	e.subscribers = append(e.subscribers, subscription[T]{id: id, fn: fn})
 	return func() {
+		subscribersMu.Lock()
+		defer subscribersMu.Unlock()
+
 		for i, sub := range e.subscribers {
 			if sub.id == id {
 				e.subscribers = append(e.subscribers[:i:i], e.subscribers[i+1:]...)
@@ -39,7 +51,11 @@ func (e *Event[T]) Subscribe(fn EventFn[T]) Unsubscribe {
 // NOTE: The subscribers are notified in separate goroutines,
 // so be aware of potential race conditions.
 func (e *Event[T]) Fire(data T) {
-	for _, subscriber := range e.subscribers {
+	subscribersMu.RLock()
+	subscribers := e.subscribers // Removal never modifies a published backing array in place
+	subscribersMu.RUnlock()
+
+	for _, subscriber := range subscribers {
 		go subscriber.fn(data)
 	}
 }
